@@ -230,6 +230,15 @@ class Kernel:
         for nm, v in lets:
             out.append(f'  let {nm} := {v} in')
         out.append(f'  {rv}.')
+        if self.name.startswith('psi_'):
+            # what the kernel leaves in the array argument it is given (in-place augmented assignments)
+            arr = params[1]
+            out.append('')
+            out.append(f'Definition {self.name}_effect {sig} : {RANK_TYPE[ranks[arr]]} :=')
+            out.append('  let K_ := K in   (* keeps K a parameter also when no operation is applied *)')
+            for nm, v in lets:
+                out.append(f'  let {nm} := {v} in')
+            out.append(f'  {self.ident(arr)}.')
         return '\n'.join(out)
 
 
@@ -383,6 +392,33 @@ def class_checks(tree):
         if '__call__' in members(classes[cls]) or 'args' in members(classes[cls]):
             fail(classes[cls], f'{cls} overrides __call__/args', cls)
     expect_body('IdealActivityCoefficients', '__call__', 'return np.ones(len(xs))', ['self', 'xs', 'T'])
+    for cls, psi, lgc in (('UNIFACActivityCoefficients', 'psi_UNIFAC', 'loggammacs_UNIFAC'),
+                          ('DortmundActivityCoefficients', 'psi_modified_UNIFAC', 'loggammacs_modified_UNIFAC'),
+                          ('NISTActivityCoefficients', 'psi_modified_UNIFAC', 'loggammacs_modified_UNIFAC')):
+        expect_body(cls, 'psi', f'return {psi}', ['self'])
+        expect_body(cls, 'loggammacs', f'return {lgc}', ['self'])
+        if 'activity_coefficients' in members(classes[cls]):
+            fail(classes[cls], f'{cls} overrides activity_coefficients', cls)
+    # the object form: skeleton with one hole (is the cached interaction table copied before psi gets it?)
+    m = g.get('activity_coefficients')
+    if not isinstance(m, ast.FunctionDef) or [a.arg for a in m.args.args] != ['self', 'x', 'T']:
+        fail(classes['GroupActivityCoefficients'], 'activity_coefficients missing or other parameters', 'GroupActivityCoefficients')
+    b = [x for x in m.body if not (isinstance(x, ast.Expr) and isinstance(getattr(x, 'value', None), ast.Constant)
+                                   and isinstance(x.value.value, str))]
+    if len(b) != 3:
+        fail(m, 'activity_coefficients: skeleton has 3 statements', 'GroupActivityCoefficients')
+    if same(b[0], 'psis = self.psi(T, self._interactions.copy())'):
+        ic = 'InterCopied'
+    elif same(b[0], 'psis = self.psi(T, self._interactions)'):
+        ic = 'InterShared'
+    else:
+        fail(b[0], 'activity_coefficients: psis line', 'GroupActivityCoefficients')
+    if not same(b[1], 'self._group_psis[self._group_mask] =  psis[self._group_mask]'):
+        fail(b[1], 'activity_coefficients: masked assignment', 'GroupActivityCoefficients')
+    if not same(b[2], 'return group_activity_coefficients(x, self._chemgroups, self.loggammacs(self._qs, self._rs, x), '
+                      'self._Qs, psis, self._chem_Qfractions, self._group_psis)'):
+        fail(b[2], 'activity_coefficients: return', 'GroupActivityCoefficients')
+    return ic
 
 
 def translate(repo=None):
@@ -404,12 +440,14 @@ def translate(repo=None):
     out.append('End Gen.')
     kern = '\n'.join(out) + '\n'
     fill_group_psis_ok(fns['fill_group_psis'])
-    class_checks(tree)
+    ic = class_checks(tree)
     w = [f'(* GENERATED by tr/C16_kernels.py from {SRC}', f'   sha256 {sha}',
          '   gamma_UNIFAC, gamma_modified_UNIFAC: statement skeleton matched, holes below;',
          '   fill_group_psis: loop nest identical to the one transcribed in Wrapper.v;',
          '   GroupActivityCoefficients.__slots__/__new__ attribute set/args/__call__ and the f properties: identical to',
-         '   the text transcribed in Model.v (no per-object state besides the group_psis buffer) *)',
+         '   the text transcribed in Model.v (no per-object state besides the group_psis buffer);',
+         '   activity_coefficients: skeleton matched, hole = whether the cached interactions are copied;',
+         '   psi / loggammacs properties of the three classes return the kernels used below *)',
          'From V Require Export C16.Gen_kernels C16.Wrapper.', 'Section GenW.', 'Context {A : Type} (K : KOps A).', '']
     info = {}
     for name in ('gamma_UNIFAC', 'gamma_modified_UNIFAC'):
@@ -418,6 +456,13 @@ def translate(repo=None):
         w.append(f'Definition {name} := wrapper K {gdir} {scatter} ({psi} K) ({lgc} K) '
                  f'(group_activity_coefficients K).')
         w.append('')
+    info['activity_coefficients'] = [ic]
+    w.append(f'Definition activity_coefficients_UNIFAC := act_method {ic} (psi_UNIFAC K) (psi_UNIFAC_effect K) '
+             f'(loggammacs_UNIFAC K) (group_activity_coefficients K).')
+    w.append('')
+    w.append(f'Definition activity_coefficients_modified := act_method {ic} (psi_modified_UNIFAC K) '
+             f'(psi_modified_UNIFAC_effect K) (loggammacs_modified_UNIFAC K) (group_activity_coefficients K).')
+    w.append('')
     w.append('End GenW.')
     wrap = '\n'.join(w) + '\n'
     d = os.path.join(VERIF, 'coq', 'C16')
